@@ -20,6 +20,7 @@ func main() {
 	out := flag.String("out", "", "stats JSON to write")
 	replays := flag.String("replays", "replays", "directory for replay files")
 	replay := flag.String("replay", "", "replay file to re-run")
+	flag.StringVar(&cliPath, "cli", "", "path of the freshly built xsel command (C14, C20)")
 	flag.Parse()
 
 	if s := os.Getenv("VERIF_SEED"); s != "" && !isFlagSet("seed") {
